@@ -1370,6 +1370,31 @@ def run(tier, replay=None):
                        'the order of the conjuncts'})
         break
 
+  # --- the branches of an if-then-else (also of an else-if chain) and the whole expression have one type
+  stats['branch_clash_cases'] = 0
+  LITS = {'Num': ['1', '2 + 3'], 'Str': ['"big"', '"a" ++ "b"'], 'Bool': ['true'], '[Num]': ['[1, 2]']}
+  for inst in range(6 if tier == 'quick' else 40):
+    ta, tb = fam_r.sample(sorted(LITS), 2)
+    good, bad = fam_r.choice(LITS[ta]), fam_r.choice(LITS[tb])
+    where = ['else', 'then', 'else-if-then', 'else-if-else'][inst % 4]
+    if where == 'else':
+      e = '(if x > 1 then %s else %s)' % (good, bad)
+    elif where == 'then':
+      e = '(if x > 1 then %s else %s)' % (bad, good)
+    elif where == 'else-if-then':
+      e = '(if x > 2 then %s else if x > 1 then %s else %s)' % (good, bad, good)
+    else:
+      e = '(if x > 2 then %s else if x > 1 then %s else %s)' % (good, good, bad)
+    for conj in (['Tb(x)', 'y == %s' % e], ['y == %s' % e, 'Tb(x)']):
+      text = HEADER + 'Tb(1);\nTb(2);\nTb(3);\nPb(x, y) :- %s;\n' % ', '.join(conj)
+      fc = full_check(text, ['Pb'], compile_preds=True)
+      stats['branch_clash_cases'] += 1
+      if fc['status'] != 'TypeError':
+        report('branch-clash:%s:%s' % (where, 'accepted' if fc['status'] == 'ok' else fc['status']),
+               {'kind': 'reject', 'text': text, 'observed': fc,
+                'law': '(b) the branches of an if-then-else have one type: two branches of different ground types clash'})
+        break
+
   # --- documented result types of aggregates and built-ins: exact signature, and the value returned inhabits it
   BUILTIN_CASES = [
       ('Best() ArgMax= n -> v :- S(n, v);', 'Best', 'Str'), ('Worst() ArgMin= n -> v :- S(n, v);', 'Worst', 'Str'),
